@@ -411,3 +411,14 @@ func (r *Run) BFS(kind string, roots []json.RawMessage, maxDepth int, onResult f
 	r.Extra["bfs_max_depth"] = depth - 1
 	return true
 }
+
+// MapBudget runs the cases like Map but stops dispatching when the run's internal budget is reached; the
+// run is then reported as not exhaustive with the number of cases left out (never a violation).
+func (r *Run) MapBudget(kind string, cases []json.RawMessage, cb func(i int, c json.RawMessage, res *Result)) {
+	skipped := MapUntil(kind, cases, r.OverBudget, cb)
+	if skipped > 0 {
+		r.Exhaustive = false
+		r.Extra["cases_not_run_because_of_budget"] = skipped
+		r.Extra["cases_total"] = len(cases)
+	}
+}
